@@ -21,6 +21,13 @@ def e2e_oracle(chk, r):
             chk.violation("end-to-end", r["cfg"], {"nbh": r["nbh"], "H": r["H"], "max_eft_from_requested_inputs": ref["max"], "min_eft_from_requested_inputs": ref["min"],
                                                     "on_the_returned_object": [r["resim_max"], r["resim_min"]]},
                           f"simulating the returned field at the returned height with the requested fluid / pipe / soil / grout / loads / horizon keeps the EFT within [{dz['min_eft']}, {dz['max_eft']}] +- 1e-3")
+        # what the design was computed with against what was asked for: fluid property tables (by name, concentration, temperature) and ground temperature
+        fp, want = r.get("fluid_props"), ref.get("fluid_from_pygfunction")
+        if fp and want and any(abs(fp[k] - want[k]) > 1e-9 * abs(want[k]) for k in want):
+            chk.violation("end-to-end", r["cfg"], {"fluid_of_the_design": fp, "requested_fluid": r["cfg"]["fluid"], "its_properties": want},
+                          "the design is computed with the fluid that was requested (name, concentration, temperature)")
+        if "soil_ugt" in r and abs(r["soil_ugt"] - float(r["cfg"]["soil"]["undisturbed_temp"])) > 1e-12:
+            chk.violation("end-to-end", r["cfg"], {"ground_temperature_of_the_design": r["soil_ugt"]}, f"the design is computed with the requested undisturbed ground temperature {r['cfg']['soil']['undisturbed_temp']}")
     elif "reference_error" in r:
         chk.broken.append({"name": "reference simulation from the requested inputs failed", "detail": r["reference_error"]})
     # the design was simulated over the horizon that was asked for (hybrid axis ends at the last hour of the requested month)
@@ -47,7 +54,19 @@ def configs(tier):
     glyc["fluid"] = {"fluid_name": "PROPYLENEGLYCOL", "concentration_percent": 25.0, "temperature": 2}
     coax = cfg("RECTANGLE", "COAXIAL", months=12, loads={"kind": "cooling", "scale": 30000, "seed": 6}, flow=("SYSTEM", 2.0))
     coax["pipe"]["conductivity_inner"], coax["pipe"]["conductivity_outer"] = 0.42, 0.17
-    cs += [cold, glyc, coax]
+    # values that are exactly 0 (a design fluid temperature of 0 C, a lower limit of 0 C), on a manager that held other values before
+    zero = cfg("RECTANGLE", months=12, loads={"kind": "heating", "scale": 20000, "seed": 9}, flow=("BOREHOLE", 0.3), design={"min_eft": 0.0})
+    zero["fluid"] = {"fluid_name": "PROPYLENEGLYCOL", "concentration_percent": 25.0, "temperature": 0}
+    zero["_first_configured_with"] = {"fluid": {"temperature": 12}, "soil": {"undisturbed_temp": 14.0}}
+    # a year of loads given as whole numbers of watts (Python ints)
+    ints = cfg(months=12, loads={"kind": "heating", "scale": 8800.0, "seed": 11, "as_int": True}, flow=("BOREHOLE", 0.3))
+    ints["soil"] = dict(ints["soil"], undisturbed_temp=11.0)
+    # the same manager (and process) designed the same project before with another grout: same candidate fields, heights and flows
+    # (a 20-year horizon and a field of some forty boreholes: the long-time response, where the borehole resistance enters, carries the difference)
+    regrout = cfg(months=240, loads={"kind": "cooling", "scale": 104000, "seed": 12})
+    regrout["grout"] = dict(regrout["grout"], conductivity=1.2)
+    regrout["_first_configured_with"] = {"grout": {"conductivity": 2.4}}
+    cs += [cold, glyc, coax, zero, ints, regrout]
     reused = cfg("RECTANGLE", months=36, loads={"kind": "cooling", "scale": 30000, "seed": 8})
     reused["_first_configured_with"] = {"simulation": {"num_months": 12}, "design": {"max_eft": 30.0}}      # the manager did another study first
     cs.append(reused)
